@@ -191,7 +191,13 @@ def finish(rep, t0, facts_info, level="other"):
     """write evidence, print verdict lines, return exit code"""
     known = load_known()
     known_keys = {(k["property"], k["key"]): k for k in known.get("findings", [])}
-    viol = rep.violations()
+    viol = []
+    seen_keys = set()
+    for v in rep.violations():          # the same instance can be found in several build configurations
+        if v["key"] in seen_keys:
+            continue
+        seen_keys.add(v["key"])
+        viol.append(v)
     new = []
     kn = []
     for v in viol:
